@@ -406,6 +406,15 @@ def c09(run, args):
                 cap, maxkb = cfgs[(i + run.seed) % len(cfgs)]
                 behaviours.append({"id": "lin-%d-%s-c%dk%d" % (i, st, cap, maxkb), "store": st, "cap": cap, "maxkb": maxkb, "names": sets[i % len(sets)],
                                    "pre": pre, "threads": threads, "repeat": 6 if quick else 12})
+        # first touch: several clients hit a mailbox that does not exist yet at the same moment (creation inside withMailbox / mkdir)
+        for k in range(12 if quick else 60):
+            st = ["mem", "file"][k % 2]
+            cfgs = mem_cfgs if st == "mem" else file_cfgs
+            cap, maxkb = cfgs[k % len(cfgs)]
+            fresh = [[{"op": "add", "mb": 1, "meta": 1, "size": 600}] + ([{"op": rng.choice(["list", "latest"]), "mb": 1, "id": 1}] if j == 0 else [{"op": "add", "mb": 1, "meta": 1, "size": 600}])
+                     for j in range(3 + k % 2)]
+            behaviours.append({"id": "first-%d-%s-c%dk%d" % (k, st, cap, maxkb), "store": st, "cap": cap, "maxkb": maxkb, "names": sets[k % len(sets)],
+                               "pre": [p_ for p_ in pre if p_["mb"] == 0], "threads": fresh, "repeat": 60})
         run.cov["samples"] = [behaviours[0]["threads"], behaviours[-1]["threads"]]
     names = sorted({n for b in behaviours for n in b["names"]})
     crashes = []
